@@ -30,6 +30,7 @@ SEEDS = {
     "c18-2": ("C18", "an abort on physical line 0: the error record gets line number -1", ["C18", "C05"]),
     "c19-2": ("C19", "CsvPaths with a non-default delimiter/quotechar and a header cache populated by an earlier instance or process (cache read with the instance dialect)", ["C19"]),
     "c20-2": ("C20", "a header reference to the FIRST header (index 0) of the referenced csvpath raises instead of returning the list", ["C20"]),
+    "c01-3": ("C01", "above/below family with exactly one operand an EMPTY cell that is present in the row (treated like None: always False)", ["C01"]),
     "c02-3": ("C02", "a lone degenerate range [k-k] with k>=1 (every record before k is scanned too)", ["C02"]),
     "c03-3": ("C03", "pop() when the value on top of the stack also occurs lower in it (the first equal element is removed instead of the top)", ["C03"]),
     "c04-3": ("C04", "a reused CsvPaths instance: fail_all() executed in an earlier run, later run via a by_line method or next_paths (stale _fail_all)", ["C04"]),
